@@ -248,7 +248,7 @@ def oct_text_secrets(ctx):
     j = J.load()
     import warnings
     from refjose.prim import b64u_enc
-    for text in ("hunter2", " hunter2", "hunter2\n", "\thunter2 \r\n", "  ", "pass word", "\u00a0secret\u00a0", "\u2003wide\u2003", "se\ncret", "\x0bvt\x0c", "\x1csep\x1f", "pä€\n"):
+    for text in ('{"kty":"oct","k":"c2VjcmV0"}', ' {"kty":"RSA","n":"AA","e":"AQAB"} ', "{}", "[1]", '"quoted"', "-----BEGIN NOTHING-----", "hunter2", " hunter2", "hunter2\n", "\thunter2 \r\n", "  ", "pass word", "\u00a0secret\u00a0", "\u2003wide\u2003", "se\ncret", "\x0bvt\x0c", "\x1csep\x1f", "pä€\n"):
         octets = text.encode("utf-8")
         want = RefKey.from_jwk({"kty": "oct", "k": b64u_enc(octets)}).thumbprint()
         for via, f in (("OctKey.import_key(str)", lambda: j.OctKey.import_key(text)), ("OctKey.import_key(bytes)", lambda: j.OctKey.import_key(octets)),
@@ -272,6 +272,33 @@ def oct_text_secrets(ctx):
                               f"its octets {octets!r} is {want!r}", {"text_secret": text, "via": via})
 
 
+def same_kid_twice_in_a_set(ctx, rng):
+    """RFC 7517 4.5 lets different keys of one set carry the same kid (e.g. an RSA and an EC key of one rotation): a kid that is present is not replaced -
+    not at construction, not by exports, not by importing the exported set again"""
+    j = J.load()
+    pairs = [(gen.new_rsa(2048), gen.new_ec("P-256")), (gen.new_ec("P-256"), gen.new_ec("P-384")), (gen.new_oct(256), gen.new_okp("Ed25519")), (gen.new_ec("P-256"), gen.new_ec("P-256"))]
+    for a, b in pairs:
+        for kid in ("2024-rotation", "", "k"):
+            ctx.ev()
+            ja, jb = {**a, "kid": kid}, {**b, "kid": kid}
+            ks = call(lambda: j.KeySet([j.key(ja), j.key(jb)]))
+            ctx.count("kids")
+            ctx.count("same_kid_sets")
+            ctx.nontrivial(("same-kid", a["kty"], b["kty"], kid))
+            case = {"same_kid_twice": True, "kid": kid, "kty": [a["kty"], b["kty"]]}
+            if not ks.ok:
+                ctx.open("set-with-a-repeated-kid-refused")
+                continue
+            kids = [k.kid for k in ks.value.keys]
+            exported = call(ks.value.as_dict, private=True)
+            again = call(lambda: j.KeySet.import_key_set(copy.deepcopy(exported.value))) if exported.ok else exported
+            kids2 = [k.get("kid") for k in exported.value["keys"]] if exported.ok else None
+            kids3 = [k.kid for k in again.value.keys] if again.ok else None
+            if kids != [kid, kid] or kids2 != [kid, kid] or (again.ok and kids3 != [kid, kid]):
+                ctx.violation("explicit-kid-overwritten:repeated-in-a-set", f"two keys ({a['kty']}, {b['kty']}) given the kid {kid!r} in one set: kids after construction {kids}, "
+                              f"in the export {kids2}, after importing that export {kids3}", case)
+
+
 def run_shard(ctx):
     J.load()
     rng = ctx.rng
@@ -281,6 +308,8 @@ def run_shard(ctx):
         caller_dict_reused(ctx, rng)
     if ctx.shard == 2:
         oct_text_secrets(ctx)
+    if ctx.shard == 3:
+        same_kid_twice_in_a_set(ctx, rng)
     work = []
     for kind in list(K.KINDS) + list(K.UNUSUAL_RSA):
         for rep in K.REPS:
@@ -319,6 +348,8 @@ REQUIRE = [("thumbprints", 400, "thumbprints compared"), ("kids", 120, "kid assi
 
 def replay(ctx, case):
     J.load()
+    if case.get("same_kid_twice"):
+        return same_kid_twice_in_a_set(ctx, ctx.rng)
     if "text_secret" in case:
         return oct_text_secrets(ctx)
     if "jwk" in case and case["jwk"].get("kty"):
